@@ -1,5 +1,5 @@
 (** Request dispatch: one request line in, one response line out. *)
-From Cel.Model Require Export Wire Arith Compare Macros Parser Refs WireData WireSpec.
+From Cel.Model Require Export Wire Arith Compare Macros Parser Refs WireData WireSpec WireHeap.
 Open Scope string_scope.
 
 (** the context holds exactly the standard functions (hypothesis of C03_refines) *)
@@ -119,8 +119,8 @@ Definition handle (req : sexp) : sexp :=
           match compile s with
           | CExpr e =>
               let status :=
-                if negb (String.eqb (print_sexp (sexp_of_expr e)) (print_sexp (sexp_of_expr (lower t')))) then
-                  tagged "lower-mismatch" [sexp_of_expr e; sexp_of_expr (lower t')]
+                if negb (String.eqb (print_sexp (sexp_of_expr e)) (print_sexp (sexp_of_expr (Spec.lower t')))) then
+                  tagged "lower-mismatch" [sexp_of_expr e; sexp_of_expr (Spec.lower t')]
                 else match type_of g' t' with
                      | None => Atom "untyped"
                      | Some _ => if negb (env_okb g' (env_of c')) then Atom "env-mismatch"
@@ -135,6 +135,11 @@ Definition handle (req : sexp) : sexp :=
           | COutOfFuel => Atom "(out-of-fuel)"
           end
       | _, _, _, _ => bad "c03"
+      end
+  | SList [Atom "heap"; SList (Atom "env" :: es); prog] =>
+      match opt_map_list env_entry es, hexpr_of_sexp prog with
+      | Some entries, Some e => heap_answer entries e
+      | _, _ => bad "heap"
       end
   | SList [Atom "ser"; d] =>
       match sdata_of_sexp d with
